@@ -40,6 +40,8 @@ def scope(w):
             continue
         if (b.j.get('impl_trait') or {}).get('path', '').startswith('std::fmt'):
             continue
+        if 'serde' in (b.j.get('impl_trait') or {}).get('path', ''):
+            continue          # (de)serialisation of Config (feature `serde`): not part of formatting a text
         if _is_range_entry(b):
             roots_range.append(b.id)
         else:
@@ -587,8 +589,12 @@ def _table_guard(w, v, ob, key):
 def r4_termination(w):
     r = RuleResult('C05.R4', 'loops are iterator-driven (or pop what they inspect); hand-written iterators descend; every recursive cycle descends the tree', floor=40)
     core = w.core
-    # (a) loops
+    doc, range_only, _ = scope(w)
+    in_scope = doc | range_only
+    # (a) loops (of everything a formatting entry can reach)
     for b in w.fn_bodies(core):
+        if b.id not in in_scope:
+            continue
         loops = cfg.natural_loops(b)
         if not loops:
             continue
